@@ -184,6 +184,7 @@ func (vc *VC) loopHead(fr *Frame, blk *ssa.BasicBlock, ins []*Edge, name string)
 	if lc != nil {
 		sc := vc.specCtx(fr, n, n.env)
 		sc.atLoop = blk
+		sc.pos = loopPos(blk)
 		for _, c := range lc.Clauses {
 			if c.Kind != "invariant" {
 				continue
@@ -197,6 +198,22 @@ func (vc *VC) loopHead(fr *Frame, blk *ssa.BasicBlock, ins []*Edge, name string)
 		}
 	}
 	return n
+}
+
+// loopPos: the source position at which a loop invariant is evaluated: the loop condition (head block).
+func loopPos(blk *ssa.BasicBlock) token.Pos {
+	pos := token.NoPos
+	for _, in := range blk.Instrs {
+		if in.Pos().IsValid() && in.Pos() > pos {
+			pos = in.Pos()
+		}
+	}
+	if iff, ok := blk.Instrs[len(blk.Instrs)-1].(*ssa.If); ok {
+		if c, ok := iff.Cond.(ssa.Instruction); ok && c.Pos().IsValid() {
+			pos = c.Pos()
+		}
+	}
+	return pos
 }
 
 func (vc *VC) loopContract(fr *Frame, blk *ssa.BasicBlock) *LoopContract {
@@ -235,6 +252,7 @@ func (vc *VC) loopInvariants(fr *Frame, blk *ssa.BasicBlock, at *Node, e *Edge, 
 	}
 	sc := vc.specCtx(fr, at, at.env)
 	sc.atLoop = blk
+	sc.pos = loopPos(blk)
 	j := 0
 	for _, c := range lc.Clauses {
 		if c.Kind != "invariant" {
@@ -286,6 +304,9 @@ func (vc *VC) safety(fr *Frame, n *Node, kind string, f string, pos token.Pos) {
 }
 
 func (vc *VC) exec(fr *Frame, n *Node, instr ssa.Instruction) *Node {
+	if instr.Pos().IsValid() {
+		fr.curPos = instr.Pos()
+	}
 	switch in := instr.(type) {
 	case *ssa.DebugRef:
 		return n
